@@ -281,6 +281,67 @@ def c13_7(ctx):
     return identity_obligation(ctx, ["taproot"], "the control block of a leaf rebuilt from the same k keys is not found, so that subset cannot spend")
 
 
+def c13_9(ctx):
+    """TapRootMultiSig accepts every threshold 1 <= k <= n (n-of-n included) and refuses the rest: cell evaluation of the constructor
+    for n = 1..5 keys and k = -1..n+2"""
+    from sa.cells import Evaluator, Obj, Raised, Undecided
+    spec = "taproot:TapRootMultiSig.__init__"
+    mod, fn = rl.get(ctx, spec)
+
+    def musig_init(o, *a, **k):
+        o.attrs["point"] = Obj("pecc", "S256Point", {})
+    cells = 0
+    for n in range(1, 6):
+        for k in range(-1, n + 3):
+            cells += 1
+            me = Obj("taproot", "TapRootMultiSig")
+            pts = [Obj("pecc", "S256Point", {"i": i}) for i in range(n)]
+            try:
+                Evaluator(ctx.repo, method_hooks={("MuSigTapScript", "__init__"): musig_init}).call(spec, [pts, k], self_obj=me)
+                got = "accepted"
+            except Undecided as u:
+                return [ctx.err(spec, "constructor not evaluable for n=%d, k=%d: %s" % (n, k, u), fn, mod)]
+            except Raised as x:
+                got = "refused"
+            want = "accepted" if 1 <= k <= n else "refused"
+            if got != want:
+                return [ctx.bad(spec, "k = %d of n = %d keys is %s, expected %s: %s" % (k, n, got, want,
+                                "no tree can be generated for that threshold, so its k-subsets own no leaf" if want == "accepted" else "a threshold outside 1..n is taken"),
+                                fn, mod, key="threshold-domain")]
+    ctx.count("cells", cells)
+    return [ctx.ok(spec, "thresholds 1..n are accepted and all others refused (%d (n, k) cells)" % cells, fn, mod, key="threshold-domain")]
+
+
+def c13_10(ctx):
+    """S256Point.combine (nonce / key aggregation) returns the sum of all points whatever the partial sums are: evaluated over formal
+    multiples of one point (infinity = 0) for lists whose prefixes cancel"""
+    from sa.cells import ClassRef, Evaluator, Obj, Raised, Undecided
+    spec = "pecc:S256Point.combine"
+    mod, fn = rl.get(ctx, spec)
+
+    def mk(k):
+        return Obj("pecc", "S256Point", {"k": k, "x": None if k == 0 else 1, "y": None if k == 0 else 1})
+
+    def add(a, b):
+        if not (isinstance(a, Obj) and isinstance(b, Obj)):
+            raise Undecided("point + non-point")
+        return mk(a.attrs["k"] + b.attrs["k"])
+    lists = [[1], [2, 3], [1, 2, 3, 4], [1, -1, 5], [2, 3, -5, 7], [4, -4, 4, -4, 9], [1, 1, -2, 6]]
+    for ks in lists:
+        try:
+            r = Evaluator(ctx.repo, method_hooks={("S256Point", "__add__"): add, ("Point", "__add__"): add}).call(spec, [[mk(k) for k in ks]], self_obj=ClassRef("pecc", "S256Point"))
+        except Undecided as u:
+            return [ctx.err(spec, "combine not evaluable: %s" % u, fn, mod)]
+        except Raised as x:
+            return [ctx.bad(spec, "combining the multiples %s of one point raises %s although the total is %d*P: participants whose first nonces (or keys) cancel cannot "
+                                  "aggregate" % (ks, x.name, sum(ks)), fn, mod, key="combine-sum")]
+        if not isinstance(r, Obj) or r.attrs.get("k") != sum(ks):
+            return [ctx.bad(spec, "combining the multiples %s of one point gives %s, expected %d*P" % (ks, r.attrs.get("k") if isinstance(r, Obj) else r, sum(ks)), fn, mod,
+                            key="combine-sum")]
+    ctx.count("cells", len(lists))
+    return [ctx.ok(spec, "returns the sum for all %d lists evaluated, including lists whose prefixes sum to infinity" % len(lists), fn, mod, key="combine-sum")]
+
+
 def c13_8(ctx):
     """finalize_p2tr_multisig matches each signature to its key with the message of the signature's own hash type
     (64 bytes: SIGHASH_DEFAULT, 65 bytes: the last byte): the message verified must depend on the signature"""
@@ -326,5 +387,7 @@ OBLIGATIONS = [
     ("C13.6", "GUARD polarity", c13_6),
     ("C13.7", "IDENTITY", c13_7),
     ("C13.8", "DATAFLOW", c13_8),
+    ("C13.9", "CELLS threshold domain", c13_9),
+    ("C13.10", "CELLS formal sum", c13_10),
 ]
 FLOORS = {"C13.1": 7, "C13.2": 2, "C13.3": 7, "C13.4": 5}
